@@ -1,5 +1,5 @@
 /-
-  Proofs about the daser worker model (`Lumina.Model.Daser`) for C34 (and the shared part of C33):
+  Proofs about the daser worker model (`Lumina.Model.Daser`) for C33 and C34:
 
   * `Inv'` / `Inv`: representation invariants of every `BlockRanges` field, the characterisation
     of the queue (`queue = cand − timedOut − ongoing − willBePruned`), `ongoing` = heights of the
@@ -8,18 +8,19 @@
     `random_indexes` diverges on the given draws — in particular no failed `expect` and no loop
     bound is hit;
   * one `…_good` lemma per model function, stating the invariant afterwards and that the C34
-    monitor (`Lumina.Spec.C34.walk`) accepts the emitted actions, moving from the view of the state
-    before to the view of the state after;
+    monitor (`Lumina.Spec.C34.walk`) and the C33 monitor (`Lumina.Spec.C33.walk`, via `W33`) accept the
+    emitted actions, moving from the view of the state before to the view of the state after;
   * `step_ok`, `run_ok`: every stimulus / every history.
 -/
 import Lumina.Proofs.DaserRanges
+import Lumina.Proofs.DaserIndexes
 import Mathlib.Tactic.Tauto
 import Lumina.Model.DaserView
 
 namespace Lumina.Proofs.Daser
 open Lumina.Model.Ranges hiding Inv
 open Lumina.Model.Daser
-open Lumina.Proofs.Ranges Lumina.Proofs.DaserRanges
+open Lumina.Proofs.Ranges Lumina.Proofs.DaserRanges Lumina.Proofs.DaserIndexes
 open Lumina.Spec
 
 local notation "RInv" => Lumina.Model.Ranges.Inv
@@ -115,6 +116,141 @@ theorem walk34_pollNew (v : C34.View) (fs : List Fut) : C34.walk v (pollNew fs) 
     | cons f l ih => intro v; simp [C34.walk, C34.onTok, ih]
   simp [h1, h2]
 
+/-- the constants the properties quote -/
+def CfgOK (c : Cfg) : Prop := c.prunerThreshold = 512 ∧ c.maxSamples = 16
+
+/-! ### the C33 monitor along the model -/
+
+/-- the C33 view of a state, with the "just finished successfully" marker set to `j` -/
+def view33j (s : State) (j : Option Nat) : C33.View := { view33 s with justOk := j }
+
+/-- the C33 monitor accepts `toks` and moves from the view of `s` to the view of `s'` -/
+def W33 (s : State) (toks : List Tok) (s' : State) : Prop :=
+  ∀ j, C33.walk (view33j s j) toks = some (view33j s' j)
+
+theorem walk33_append (v : C33.View) (a b : List Tok) :
+    C33.walk v (a ++ b) = (C33.walk v a).bind (fun v' => C33.walk v' b) := by
+  induction a generalizing v with
+  | nil => rfl
+  | cons t ts ih =>
+    simp only [List.cons_append, C33.walk]
+    cases C33.onTok v t with
+    | none => rfl
+    | some v' => exact ih v'
+
+theorem W33.trans {a b c : State} {t1 t2 : List Tok} (h1 : W33 a t1 b) (h2 : W33 b t2 c) : W33 a (t1 ++ t2) c := by
+  intro j; rw [walk33_append, h1 j]; exact h2 j
+
+theorem W33.nil (s : State) : W33 s [] s := fun _ => rfl
+
+/-- futures and recorded metadata only grow -/
+structure Grow (s s' : State) : Prop where
+  futs : ∀ g ∈ s.w.futs, g ∈ s'.w.futs
+  smeta : ∀ h p, p ∈ metaGet s.store.smeta h → p ∈ metaGet s'.store.smeta h
+
+theorem Grow.refl (s : State) : Grow s s := ⟨fun _ h => h, fun _ _ h => h⟩
+theorem Grow.trans {a b c : State} (h1 : Grow a b) (h2 : Grow b c) : Grow a c :=
+  ⟨fun g hg => h2.futs g (h1.futs g hg), fun h p hp => h2.smeta h p (h1.smeta h p hp)⟩
+
+/-- a block that has just been started -/
+structure NewFut (s : State) (f : Fut) : Prop where
+  mem : f ∈ s.w.futs
+  pending : f.pending = f.shares
+  fresh : f.timedOut = false
+  ok : C33.sharesOK f.width f.shares = true
+  width : f.width = (s.hdr f.height).width
+  recorded : ∀ p ∈ f.shares, p ∈ metaGet s.store.smeta f.height
+
+theorem NewFut.grow {s s' : State} {f : Fut} (h : NewFut s f) (g : Grow s s') (hh : s'.hdr = s.hdr) : NewFut s' f :=
+  ⟨g.futs f h.mem, h.pending, h.fresh, h.ok, by rw [hh]; exact h.width, fun p hp => g.smeta _ p (h.recorded p hp)⟩
+
+theorem find_blk : ∀ {futs : List Fut} {f : Fut}, f ∈ futs → (futs.map (·.height)).Nodup →
+    (futs.map blkOf).find? (fun b => b.height == f.height) = some (blkOf f)
+  | g :: rest, f, hf, hnd => by
+    simp only [List.map_cons, List.nodup_cons] at hnd
+    rcases List.mem_cons.1 hf with rfl | hf
+    · simp [List.find?_cons, blkOf]
+    · have hne : (g.height == f.height) = false := by
+        simp only [beq_eq_false_iff_ne, ne_eq]
+        intro hgf
+        exact hnd.1 (List.mem_map.2 ⟨f, hf, hgf.symm⟩)
+      simp only [List.map_cons, List.find?_cons]
+      have : ((blkOf g).height == f.height) = false := hne
+      rw [this]
+      exact find_blk hf hnd.2
+
+theorem sameSet_refl (l : List Share) : C33.sameSet l l = true := by
+  simp [C33.sameSet]
+
+/-- the first poll of freshly started futures is accepted: `SamplingStarted` lists the chosen shares and
+    every request is for a share already recorded -/
+theorem W33_pollNew {s : State} (hnd : (s.w.futs.map (·.height)).Nodup) (fs : List Fut)
+    (hfs : ∀ f ∈ fs, NewFut s f) : W33 s (pollNew fs) s := by
+  intro j
+  unfold pollNew
+  rw [walk33_append]
+  have hfind : ∀ f ∈ fs, C33.findBlk (view33j s j) f.height = some (blkOf f) := by
+    intro f hf
+    exact find_blk (hfs f hf).mem hnd
+  have h1 : ∀ (l : List Fut), (∀ f ∈ l, f ∈ fs) →
+      C33.walk (view33j s j) (l.map (fun f => Tok.started f.height f.width f.shares)) = some (view33j s j) := by
+    intro l
+    induction l with
+    | nil => intro _; rfl
+    | cons f l ih =>
+      intro hl
+      have hf := hl f (by simp)
+      have hn := hfs f hf
+      have hw : (f.width == (view33j s j).width f.height) = true := by
+        simp [view33j, view33, hn.width]
+      simp only [List.map_cons, C33.walk, C33.onTok, hfind f hf, blkOf, hw, sameSet_refl, hn.ok, Bool.and_self, if_true]
+      exact ih (fun g hg => hl g (by simp [hg]))
+  have h2 : ∀ (l : List Fut), (∀ f ∈ l, f ∈ fs) →
+      C33.walk (view33j s j) (l.map (fun f => Tok.req f.height f.shares)) = some (view33j s j) := by
+    intro l
+    induction l with
+    | nil => intro _; rfl
+    | cons f l ih =>
+      intro hl
+      have hf := hl f (by simp)
+      have hn := hfs f hf
+      have hnodup : decide f.shares.Nodup = true := by
+        have := hn.ok
+        simp only [C33.sharesOK, Bool.and_eq_true] at this
+        exact this.1.1
+      have hrec : f.shares.all (fun p => ((view33j s j).recorded f.height).contains p) = true := by
+        simp only [List.all_eq_true, view33j, view33]
+        intro p hp
+        simpa using hn.recorded p hp
+      simp only [List.map_cons, C33.walk, C33.onTok, hfind f hf, blkOf, sameSet_refl, hnodup, hrec, Bool.and_self, if_true]
+      exact ih (fun g hg => hl g (by simp [hg]))
+  rw [h1 fs (fun _ h => h)]
+  exact h2 fs (fun _ h => h)
+
+theorem view33j_congr {s s' : State} (hst : s'.store = s.store) (hfu : s'.w.futs = s.w.futs) (hf : Frame s s')
+    (j : Option Nat) : view33j s' j = view33j s j := by
+  simp only [view33j, view33, hst, hfu, hf.hdr, hf.connected]
+
+/-- reading the store is invisible to the C33 monitor -/
+theorem W33_of_same {s s' : State} {toks : List Tok} (hst : s'.store = s.store) (hfu : s'.w.futs = s.w.futs)
+    (hf : Frame s s') (htoks : ∀ t ∈ toks, t = Tok.scan) : W33 s toks s' := by
+  intro j
+  rw [view33j_congr hst hfu hf j]
+  induction toks with
+  | nil => rfl
+  | cons t ts ih =>
+    have := htoks t (by simp)
+    subst this
+    simp only [C33.walk, C33.onTok]
+    exact ih (fun t ht => htoks t (by simp [ht]))
+
+theorem W33.to_same {a b c : State} {t : List Tok} (h : W33 a t b) (hst : c.store = b.store) (hfu : c.w.futs = b.w.futs)
+    (hf : Frame b c) : W33 a t c := by
+  intro j; rw [view33j_congr hst hfu hf j]; exact h j
+
+theorem Grow.of_same {s s' : State} (hst : s'.store = s.store) (hfu : s'.w.futs = s.w.futs) : Grow s s' :=
+  ⟨fun g hg => by rw [hfu]; exact hg, fun h p hp => by rw [hst]; exact hp⟩
+
 /-! ### `update_queue` -/
 
 theorem updateQueue_good {s : State} {hand : Option Nat} (hi : Inv' s hand) :
@@ -171,7 +307,7 @@ structure Picked (s : State) (h : Nat) : Prop where
 
 def PickPost (s : State) (r : Option Nat × State × List Tok) : Prop :=
   Frame s r.2.1 ∧ r.2.1.store = s.store ∧ r.2.1.w.futs = s.w.futs ∧
-  C34.walk (view34 s) r.2.2 = some (view34 r.2.1) ∧
+  C34.walk (view34 s) r.2.2 = some (view34 r.2.1) ∧ (∀ t ∈ r.2.2, t = Tok.scan) ∧
   match r.1 with
   | none => Inv r.2.1
   | some h => Picked r.2.1 h
@@ -184,7 +320,7 @@ theorem pickHeader_step {s : State} (hi : Inv s) (fuel : Nat)
   rcases popHead_spec hi.queue with ⟨hnil, hpop⟩ | ⟨h, rs', hpop, hrs', hmem, hmax, hrm⟩
   · refine Good.bind (Good.liftR hpop (P := fun a => a = (none, s.w.queue)) rfl) ?_
     rintro _ rfl
-    exact Good.pure ⟨Frame.refl s, rfl, rfl, rfl, hi⟩
+    exact Good.pure ⟨Frame.refl s, rfl, rfl, rfl, by simp, hi⟩
   · refine Good.bind (Good.liftR hpop (P := fun a => a = (some h, rs')) rfl) ?_
     rintro _ rfl
     dsimp only
@@ -195,7 +331,7 @@ theorem pickHeader_step {s : State} (hi : Inv s) (fuel : Nat)
       obtain ⟨q2, hq2, hq2i, hq2m⟩ := insertRelaxed_spec hrs' (validR_single hb.1 hb.2)
       refine Good.bind (Good.liftR hq2 (P := fun a => q2 = a) rfl) ?_
       rintro _ rfl
-      refine Good.pure ⟨⟨rfl, rfl, rfl, rfl⟩, rfl, rfl, rfl, ?_⟩
+      refine Good.pure ⟨⟨rfl, rfl, rfl, rfl⟩, rfl, rfl, rfl, by simp, ?_⟩
       refine ⟨hi.stored, hi.sampled, hq2i, hi.timedOut, hi.ongoing, hi.wbp, hi.cand, ?_, hi.ongoing_eq, hi.nodup,
         hi.cand_le, hi.futs_le, hi.disc⟩
       intro x
@@ -221,7 +357,7 @@ theorem pickHeader_step {s : State} (hi : Inv s) (fuel : Nat)
       split
       · -- header found
         rename_i hlim hst
-        refine Good.pure ⟨⟨rfl, rfl, rfl, rfl⟩, rfl, rfl, rfl, ?_⟩
+        refine Good.pure ⟨⟨rfl, rfl, rfl, rfl⟩, rfl, rfl, rfl, by simp, ?_⟩
         exact ⟨hi1, hst, hq.2.1, hq.2.2.1, hq.2.2.2.1, hq.2.2.2.2,
           fun x h1 h2 h3 h4 => hmax x ((hi.queue_eq x).2 ⟨by simp, h1, h2, h3, h4⟩), by simpa using hlim⟩
       · -- not in the store: the queue is stale; repopulate and try again
@@ -231,8 +367,8 @@ theorem pickHeader_step {s : State} (hi : Inv s) (fuel : Nat)
         · refine Good.bind (updateQueue_good hi1) ?_
           rintro ⟨s2, t2⟩ ⟨hi2, hf2, hst2, hfu2, rfl, hw2, hqs2⟩
           refine Good.bind (hrec s2 hi2 hqs2) ?_
-          rintro ⟨r, s3, t3⟩ ⟨hf3, hst3, hfu3, hw3, hr⟩
-          refine Good.pure ⟨?_, ?_, ?_, ?_, hr⟩
+          rintro ⟨r, s3, t3⟩ ⟨hf3, hst3, hfu3, hw3, hsc3, hr⟩
+          refine Good.pure ⟨?_, ?_, ?_, ?_, ?_, hr⟩
           · exact Frame.trans (Frame.trans (b := { s with w := { s.w with queue := rs' } }) ⟨rfl, rfl, rfl, rfl⟩ hf2) hf3
           · exact hst3.trans hst2
           · exact hfu3.trans hfu2
@@ -241,6 +377,11 @@ theorem pickHeader_step {s : State} (hi : Inv s) (fuel : Nat)
             have : C34.walk (view34 s) [Tok.scan] = some (view34 s2) := hw2
             rw [this]
             exact hw3
+          · intro t ht
+            simp only [List.mem_append, List.mem_singleton] at ht
+            rcases ht with rfl | ht
+            · rfl
+            · exact hsc3 t ht
 
 theorem pickHeader_good {s : State} (hi : Inv s) (fuel : Nat) :
     Good (pickHeader (fuel + 2) s) (PickPost s) :=
@@ -304,25 +445,27 @@ theorem startOK_of_picked {s : State} {h : Nat} (hp : Picked s h) (hfresh : (s.h
 structure Sched (s : State) : Prop where
   conn : s.w.connected = true
   alive : s.w.dead = false
-  thr : s.cfg.prunerThreshold = 512
+  thr : CfgOK s.cfg
 
 theorem Sched.frame {s s' : State} (h : Sched s) (f : Frame s s') : Sched s' :=
   ⟨f.connected.trans h.conn, f.dead.trans h.alive, by rw [f.cfg]; exact h.thr⟩
 
 def NextPost (s : State) (r : Option Fut × State × List Tok) : Prop :=
-  Frame s r.2.1 ∧ Inv r.2.1 ∧
+  Frame s r.2.1 ∧ Inv r.2.1 ∧ Grow s r.2.1 ∧ W33 s r.2.2 r.2.1 ∧
   match r.1 with
-  | some f => C34.walk (view34 s) r.2.2 = some (view34 r.2.1) ∧ r.2.1.w.futs = s.w.futs ++ [f]
+  | some f => C34.walk (view34 s) r.2.2 = some (view34 r.2.1) ∧ r.2.1.w.futs = s.w.futs ++ [f] ∧ NewFut r.2.1 f
   | none => (C34.walk (view34 s) r.2.2).isSome = true ∧ r.2.1.w.futs = s.w.futs
 
 theorem scheduleNext_good {s : State} (hi : Inv s) (hs : Sched s) (draws : List (Nat × Nat)) :
     Good (scheduleNext s draws) (NextPost s) := by
   unfold scheduleNext
   refine Good.bind (pickHeader_good hi 1) ?_
-  rintro ⟨top, s1, t1⟩ ⟨hf1, hst1, hfu1, hw1, hr⟩
+  rintro ⟨top, s1, t1⟩ ⟨hf1, hst1, hfu1, hw1, hsc1, hr⟩
+  have hw33 : W33 s t1 s1 := W33_of_same hst1 hfu1 hf1 hsc1
+  have hg1 : Grow s s1 := Grow.of_same hst1 hfu1
   cases top with
   | none =>
-    exact Good.pure ⟨hf1, hr, by dsimp only at hw1 ⊢; rw [hw1]; rfl, hfu1⟩
+    exact Good.pure ⟨hf1, hr, hg1, hw33, by dsimp only at hw1 ⊢; rw [hw1]; rfl, hfu1⟩
   | some h =>
     dsimp only at hr hw1 hfu1 hst1 ⊢
     have hp : Picked s1 h := hr
@@ -337,7 +480,9 @@ theorem scheduleNext_good {s : State} (hi : Inv s) (hs : Sched s) (draws : List 
       rintro _ rfl
       refine Good.bind (Good.liftR ht (P := fun a => t = a) rfl) ?_
       rintro _ rfl
-      refine Good.pure ⟨Frame.trans hf1 ⟨rfl, rfl, rfl, rfl⟩, ?_, by dsimp only; rw [hw1]; rfl, hfu1⟩
+      refine Good.pure ⟨Frame.trans hf1 ⟨rfl, rfl, rfl, rfl⟩, ?_, Grow.trans hg1 (Grow.of_same rfl rfl), ?_, by dsimp only; rw [hw1]; rfl, hfu1⟩
+      rotate_left
+      · exact hw33.to_same rfl rfl ⟨rfl, rfl, rfl, rfl⟩
       refine ⟨hp.inv.stored, hp.inv.sampled, hqi, hti, hp.inv.ongoing, hp.inv.wbp, hp.inv.cand, ?_, hp.inv.ongoing_eq,
         hp.inv.nodup, hp.inv.cand_le, hp.inv.futs_le, hp.inv.disc⟩
       intro x
@@ -356,12 +501,54 @@ theorem scheduleNext_good {s : State} (hi : Inv s) (hs : Sched s) (draws : List 
       have hfresh : (s1.hdr h).fresh = true := by simpa using hfr
       split
       · exact rfl
-      · rename_i shares _
+      · rename_i shares hri
         obtain ⟨o, ho, hoi, hom⟩ := insertRelaxed_spec hp.inv.ongoing (validR_single hb.1 hb.2)
         refine Good.bind (Good.liftR ho (P := fun a => o = a) rfl) ?_
         rintro _ rfl
-        refine Good.pure ⟨Frame.trans hf1 ⟨rfl, rfl, rfl, rfl⟩, ?_, ?_, by dsimp only; rw [hfu1]⟩
-        · refine ⟨hp.inv.stored, hp.inv.sampled, hp.inv.queue, hp.inv.timedOut, hoi, hp.inv.wbp, hp.inv.cand, ?_, ?_, ?_,
+        have hok : C33.sharesOK (s1.hdr h).width shares = true := by
+          have := hs1.thr.2
+          rw [this] at hri
+          exact sharesOK_of_randomIndexes _ _ _ hri
+        have hnd : shares.Nodup := by
+          simp only [C33.sharesOK, Bool.and_eq_true, decide_eq_true_eq] at hok
+          exact hok.1.1
+        have hmeta := metaGet_metaUpdate h shares hnd s1.store.smeta
+        have hnoblk : ∀ g ∈ s1.w.futs, g.height ≠ h := fun g hg hgh => hp.nong ((hp.inv.ongoing_eq h).2 ⟨g, hg, hgh⟩)
+        have hgrow : Grow s1 { s1 with store := { s1.store with smeta := metaUpdate s1.store.smeta h shares }, w := { s1.w with futs := s1.w.futs ++ [{ height := h, width := (s1.hdr h).width, shares := shares, pending := shares, timedOut := false }], ongoing := o } } := by
+          refine ⟨fun g hg => List.mem_append_left _ hg, ?_⟩
+          intro x p hp'
+          dsimp only
+          rw [hmeta]
+          simp only [C33.setRecorded]
+          split
+          · rename_i hx
+            have hx' : x = h := by simpa using hx
+            subst hx'
+            rw [addAll_eq, mem_foldl_setInsert]; exact Or.inl hp'
+          · exact hp'
+        refine Good.pure ⟨Frame.trans hf1 ⟨rfl, rfl, rfl, rfl⟩, ?inv, Grow.trans hg1 hgrow, ?w33, ?w34, by dsimp only; rw [hfu1], ?nf⟩
+        case w33 =>
+          -- the C33 monitor: the chosen shares are recorded, a block record is opened
+          refine W33.trans hw33 ?_
+          intro j
+          have hnone : (C33.findBlk (view33j s1 j) h).isNone = true := by
+            simp only [C33.findBlk, view33j, view33, Option.isNone_iff_eq_none, List.find?_eq_none, List.mem_map,
+              beq_iff_eq]
+            rintro b ⟨g, hg, rfl⟩
+            exact hnoblk g hg
+          have hok' : C33.sharesOK ((view33j s1 j).width h) shares = true := hok
+          simp only [C33.walk, C33.onTok, hok', hnone, Bool.and_self, if_true]
+          simp only [view33j, view33, hmeta, List.map_append, List.map_cons, List.map_nil, blkOf]
+        case nf =>
+          -- the new future
+          refine ⟨by dsimp only; simp, rfl, rfl, hok, rfl, ?_⟩
+          intro p hp'
+          dsimp only
+          rw [hmeta]
+          simp only [C33.setRecorded, beq_self_eq_true, if_true, addAll_eq, mem_foldl_setInsert]
+          exact Or.inr hp'
+        case inv =>
+          refine ⟨hp.inv.stored, hp.inv.sampled, hp.inv.queue, hp.inv.timedOut, hoi, hp.inv.wbp, hp.inv.cand, ?_, ?_, ?_,
             hp.inv.cand_le, ?_, fun hc => by rw [hs1.conn] at hc; cases hc⟩
           · intro x
             dsimp only
@@ -399,9 +586,10 @@ theorem scheduleNext_good {s : State} (hi : Inv s) (hs : Sched s) (draws : List 
             have := concurrencyLimit_le s1.cfg s1.w h
             simp only [List.length_append, List.length_singleton]
             omega
-        · dsimp only
+        case w34 =>
+          dsimp only
           rw [walk34_append, hw1]
-          simp only [Option.bind, C34.walk, C34.onTok, startOK_of_picked hp hfresh hs1.conn hs1.alive hs1.thr, if_true]
+          simp only [Option.bind, C34.walk, C34.onTok, startOK_of_picked hp hfresh hs1.conn hs1.alive hs1.thr.1, if_true]
           congr 1
           simp only [view34, List.length_append, List.length_singleton]
           congr 1
@@ -421,7 +609,8 @@ theorem scheduleNext_good {s : State} (hi : Inv s) (hs : Sched s) (draws : List 
 /-! ### the `while` loop and the following `select!` -/
 
 def LoopPost (s : State) (r : List Fut × State × List Tok) : Prop :=
-  Frame s r.2.1 ∧ Inv r.2.1 ∧ (C34.walk (view34 s) r.2.2).isSome = true ∧ r.2.1.w.futs = s.w.futs ++ r.1
+  Frame s r.2.1 ∧ Inv r.2.1 ∧ (C34.walk (view34 s) r.2.2).isSome = true ∧ r.2.1.w.futs = s.w.futs ++ r.1 ∧
+  Grow s r.2.1 ∧ W33 s r.2.2 r.2.1 ∧ ∀ f ∈ r.1, NewFut r.2.1 f
 
 theorem scheduleLoop_good : ∀ (fuel : Nat) (s : State) (rnd : List (List (Nat × Nat))), Inv s → Sched s →
     s.cfg.limit + s.cfg.extra < fuel + s.w.futs.length → Good (scheduleLoop fuel s rnd) (LoopPost s)
@@ -430,32 +619,36 @@ theorem scheduleLoop_good : ∀ (fuel : Nat) (s : State) (rnd : List (List (Nat 
   | fuel + 1, s, rnd, hi, hs, hlt => by
     unfold scheduleLoop
     refine Good.bind (scheduleNext_good hi hs _) ?_
-    rintro ⟨r, s1, t1⟩ ⟨hf1, hi1, hr⟩
+    rintro ⟨r, s1, t1⟩ ⟨hf1, hi1, hg1, hw33, hr⟩
     cases r with
     | none =>
-      exact Good.pure ⟨hf1, hi1, hr.1, by rw [hr.2]; simp⟩
+      exact Good.pure ⟨hf1, hi1, hr.1, by rw [hr.2]; simp, hg1, hw33, by simp⟩
     | some f =>
-      dsimp only at hr ⊢
+      dsimp only at hr hg1 hw33 ⊢
       have hlt1 : s1.cfg.limit + s1.cfg.extra < fuel + s1.w.futs.length := by
-        rw [hf1.cfg, hr.2]; simp only [List.length_append, List.length_singleton]; omega
+        rw [hf1.cfg, hr.2.1]; simp only [List.length_append, List.length_singleton]; omega
       refine Good.bind (scheduleLoop_good fuel s1 rnd.tail hi1 (hs.frame hf1) hlt1) ?_
-      rintro ⟨fs, s2, t2⟩ ⟨hf2, hi2, hw2, hfu2⟩
-      refine Good.pure ⟨Frame.trans hf1 hf2, hi2, ?_, ?_⟩
+      rintro ⟨fs, s2, t2⟩ ⟨hf2, hi2, hw2, hfu2, hg2, hw33', hnf⟩
+      refine Good.pure ⟨Frame.trans hf1 hf2, hi2, ?_, ?_, Grow.trans hg1 hg2, W33.trans hw33 hw33', ?_⟩
       · dsimp only at hw2 ⊢
         rw [walk34_append, hr.1]
         exact hw2
       · dsimp only at hfu2 ⊢
-        rw [hfu2, hr.2]; simp
+        rw [hfu2, hr.2.1]; simp
+      · intro g hg
+        rcases List.mem_cons.1 hg with rfl | hg
+        · exact hr.2.2.grow hg2 hf2.hdr
+        · exact hnf g hg
 
 def AllPost (s : State) (r : State × List Tok) : Prop :=
-  Frame s r.1 ∧ Inv r.1 ∧ (C34.walk (view34 s) r.2).isSome = true
+  Frame s r.1 ∧ Inv r.1 ∧ (C34.walk (view34 s) r.2).isSome = true ∧ W33 s r.2 r.1
 
 theorem scheduleAll_good {s : State} (hi : Inv s) (hs : Sched s) (rnd : List (List (Nat × Nat))) :
     Good (scheduleAll s rnd) (AllPost s) := by
   unfold scheduleAll
   refine Good.bind (scheduleLoop_good _ s rnd hi hs (by omega)) ?_
-  rintro ⟨fs, s1, t1⟩ ⟨hf1, hi1, hw1, _⟩
-  refine Good.pure ⟨hf1, hi1, ?_⟩
+  rintro ⟨fs, s1, t1⟩ ⟨hf1, hi1, hw1, _, _, hw33, hnf⟩
+  refine Good.pure ⟨hf1, hi1, ?_, W33.trans hw33 (W33_pollNew hi1.nodup fs hnf)⟩
   dsimp only at hw1 ⊢
   rw [walk34_append]
   cases hw : C34.walk (view34 s) t1 with
@@ -525,7 +718,12 @@ theorem storeRemove_spec {st st' : StoreSt} {h : Nat} (h1 : RInv st.stored) (h2 
 /-! ### one stimulus -/
 
 def EvPost (s : State) (ev : Ev) (r : State × List Tok) : Prop :=
-  Inv r.1 ∧ r.1.cfg = s.cfg ∧ r.1.hdr = s.hdr ∧ C34.specOK (view34 s) ev r.2 = true
+  Inv r.1 ∧ r.1.cfg = s.cfg ∧ r.1.hdr = s.hdr ∧ C34.specOK (view34 s) ev r.2 = true ∧
+  C33.specOK (view33 s) ev r.2 = true
+
+theorem isSome_of_W33 {v0 : C33.View} {s1 s2 : State} {toks : List Tok} (hv : v0 = view33j s1 none)
+    (hw : W33 s1 toks s2) : (C33.walk v0 toks).isSome = true := by
+  rw [hv, hw none]; rfl
 
 theorem scan_ne_storeErr (t : List Tok) : ((Tok.scan :: t) == [Tok.storeErr]) = false := by
   cases t <;> simp
@@ -533,25 +731,30 @@ theorem scan_ne_storeErr (t : List Tok) : ((Tok.scan :: t) == [Tok.storeErr]) = 
 /-- `update_queue` followed by scheduling, from a state whose view is `v0` -/
 theorem rescan_good {s : State} (hi : Inv s) (hs : Sched s) (rnd : List (List (Nat × Nat))) :
     Good (do let (s3, t3) ← updateQueue s; let (s4, t4) ← scheduleAll s3 rnd; pure (s4, t3 ++ t4))
-      (fun r => Frame s r.1 ∧ Inv r.1 ∧ (C34.walk (view34 s) r.2).isSome = true ∧ ∃ t, r.2 = Tok.scan :: t) := by
+      (fun r => Frame s r.1 ∧ Inv r.1 ∧ (C34.walk (view34 s) r.2).isSome = true ∧ (∃ t, r.2 = Tok.scan :: t) ∧
+        W33 s r.2 r.1) := by
   refine Good.bind (updateQueue_good hi) ?_
-  rintro ⟨s3, t3⟩ ⟨hi3, hf3, _, _, rfl, hw3, _⟩
+  rintro ⟨s3, t3⟩ ⟨hi3, hf3, hst3, hfu3, rfl, hw3, _⟩
   refine Good.bind (scheduleAll_good hi3 (hs.frame hf3) rnd) ?_
-  rintro ⟨s4, t4⟩ ⟨hf4, hi4, hw4⟩
-  refine Good.pure ⟨Frame.trans hf3 hf4, hi4, ?_, t4, rfl⟩
+  rintro ⟨s4, t4⟩ ⟨hf4, hi4, hw4, hw33⟩
+  refine Good.pure ⟨Frame.trans hf3 hf4, hi4, ?_, ⟨t4, rfl⟩,
+    W33.trans (W33_of_same hst3 hfu3 hf3 (by simp)) hw33⟩
   dsimp only at hw3 hw4 ⊢
   rw [walk34_append, hw3]
   exact hw4
 
-theorem insert_good {s : State} (hi : Inv s) (hal : s.w.dead = false) (hthr : s.cfg.prunerThreshold = 512)
+theorem insert_good {s : State} (hi : Inv s) (hal : s.w.dead = false) (hthr : CfgOK s.cfg)
     (lo hi' : Nat) (hhi : hi' ≤ U64_MAX) (rnd : List (List (Nat × Nat))) :
     Good (stepM s (.insert lo hi') rnd) (EvPost s (.insert lo hi')) := by
   simp only [stepM]
   cases hsi : storeInsert s.store lo hi' with
   | none =>
-    exact Good.pure ⟨hi, rfl, rfl, by simp [C34.specOK, C34.applyEv, C34.walk, C34.onTok]⟩
+    exact Good.pure ⟨hi, rfl, rfl, by simp [C34.specOK, C34.applyEv, C34.walk, C34.onTok],
+      by simp [C33.specOK, C33.applyEv, C33.walk, C33.onTok]⟩
   | some st =>
-    obtain ⟨h1, h2, _, hm1, hm2, hhd⟩ := storeInsert_spec hi.stored hi.sampled hhi hsi
+    obtain ⟨h1, h2, hsm, hm1, hm2, hhd⟩ := storeInsert_spec hi.stored hi.sampled hhi hsi
+    have hv33 : ∀ rej, C33.applyEv (view33 s) (.insert lo hi') rej = view33j { s with store := st } none := by
+      intro rej; simp only [C33.applyEv, view33j, view33, hsm]
     dsimp only
     have hi1 : Inv { s with store := st } := { hi with stored := h1, sampled := h2 }
     have hv1 : C34.applyEv (view34 s) (.insert lo hi') false = view34 { s with store := st } := by
@@ -570,11 +773,13 @@ theorem insert_good {s : State} (hi : Inv s) (hal : s.w.dead = false) (hthr : s.
       have hconn : s.w.connected = true := by simp only [Bool.and_eq_true] at hc; exact hc.1
       refine Good.mono (rescan_good (s := { s with store := st, w := { s.w with waitHead := (head st.stored).getD 0 } })
         { hi1 with } ⟨hconn, hal, hthr⟩ rnd) ?_
-      rintro ⟨s4, t4⟩ ⟨hf, hi4, hw, t, rfl⟩
-      refine ⟨hi4, hf.cfg, hf.hdr, ?_⟩
-      simp only [C34.specOK, scan_ne_storeErr, hv1]
-      exact hw
-    · refine Good.pure ⟨hi1, rfl, rfl, ?_⟩
+      rintro ⟨s4, t4⟩ ⟨hf, hi4, hw, ⟨t, rfl⟩, hw33⟩
+      refine ⟨hi4, hf.cfg, hf.hdr, ?_, ?_⟩
+      · simp only [C34.specOK, scan_ne_storeErr, hv1]
+        exact hw
+      · simp only [C33.specOK]
+        exact isSome_of_W33 (hv33 _) (fun j => hw33 j)
+    · refine Good.pure ⟨hi1, rfl, rfl, ?_, by simp [C33.specOK, C33.walk]⟩
       have : (([] : List Tok) == [Tok.storeErr]) = false := rfl
       simp only [C34.specOK, this, hv1, C34.walk, Option.isSome_some]
 
@@ -583,11 +788,12 @@ theorem remove_good {s : State} (hi : Inv s) (h : Nat) (rnd : List (List (Nat ×
   simp only [stepM]
   cases hsr : storeRemove s.store h with
   | none =>
-    exact Good.pure ⟨hi, rfl, rfl, by simp [C34.specOK, C34.applyEv, C34.walk, C34.onTok]⟩
+    exact Good.pure ⟨hi, rfl, rfl, by simp [C34.specOK, C34.applyEv, C34.walk, C34.onTok],
+      by simp [C33.specOK, C33.applyEv, C33.walk, C33.onTok]⟩
   | some st =>
     obtain ⟨h1, h2, hm1, hm2, hhd⟩ := storeRemove_spec hi.stored hi.sampled hsr
     have hi1 : Inv { s with store := st } := { hi with stored := h1, sampled := h2 }
-    refine Good.pure ⟨hi1, rfl, rfl, ?_⟩
+    refine Good.pure ⟨hi1, rfl, rfl, ?_, by simp [C33.specOK, C33.walk]⟩
     have : (([] : List Tok) == [Tok.storeErr]) = false := rfl
     simp only [C34.specOK, this, C34.walk, Option.isSome_some]
 
@@ -601,7 +807,7 @@ theorem inv_disconnect {s : State} (hi : Inv s) : Inv (disconnect s) := by
   refine ⟨hi.stored, hi.sampled, inv_nil, inv_nil, inv_nil, hi.wbp, inv_nil, ?_, ?_, ?_, ?_, ?_, ?_⟩ <;>
     simp [disconnect, mem_nil]
 
-theorem peers_good {s : State} (hi : Inv s) (hal : s.w.dead = false) (hthr : s.cfg.prunerThreshold = 512)
+theorem peers_good {s : State} (hi : Inv s) (hal : s.w.dead = false) (hthr : CfgOK s.cfg)
     (n : Nat) (rnd : List (List (Nat × Nat))) :
     Good (stepM s (.peers n) rnd) (EvPost s (.peers n)) := by
   simp only [stepM]
@@ -614,22 +820,25 @@ theorem peers_good {s : State} (hi : Inv s) (hal : s.w.dead = false) (hthr : s.c
     by_cases hn : n = 0
     · subst hn
       simp only [beq_self_eq_true, if_true]
-      exact Good.pure ⟨inv_disconnect hi, rfl, rfl, by rw [hne]; simp [C34.walk]⟩
+      exact Good.pure ⟨inv_disconnect hi, rfl, rfl, by rw [hne]; simp [C34.walk], by simp [C33.specOK, C33.walk]⟩
     · have : (n == 0) = false := by simpa using hn
       simp only [this, Bool.false_eq_true, if_false]
       refine Good.mono (scheduleAll_good hi ⟨hc, hal, hthr⟩ rnd) ?_
-      rintro ⟨s1, t1⟩ ⟨hf, hi1, hw⟩
-      refine ⟨hi1, hf.cfg, hf.hdr, ?_⟩
-      rw [hne]
-      have : C34.applyEv (view34 s) (.peers n) false = view34 s := by
-        simp [C34.applyEv, view34, hal, hc, this]
-      rw [this]; exact hw
+      rintro ⟨s1, t1⟩ ⟨hf, hi1, hw, hw33⟩
+      refine ⟨hi1, hf.cfg, hf.hdr, ?_, ?_⟩
+      · rw [hne]
+        have : C34.applyEv (view34 s) (.peers n) false = view34 s := by
+          simp [C34.applyEv, view34, hal, hc, this]
+        rw [this]; exact hw
+      · simp only [C33.specOK]
+        refine isSome_of_W33 ?_ hw33
+        simp [C33.applyEv, view33j, view33, hc, this]
   | false =>
     simp only [Bool.false_eq_true, if_false]
     by_cases hn : n = 0
     · subst hn
       simp only [beq_self_eq_true, if_true]
-      exact Good.pure ⟨hi, rfl, rfl, by rw [hne]; simp [C34.walk]⟩
+      exact Good.pure ⟨hi, rfl, rfl, by rw [hne]; simp [C34.walk], by simp [C33.specOK, C33.walk]⟩
     · have hn' : (n == 0) = false := by simpa using hn
       simp only [hn', Bool.false_eq_true, if_false]
       unfold connect
@@ -638,17 +847,20 @@ theorem peers_good {s : State} (hi : Inv s) (hal : s.w.dead = false) (hthr : s.c
         simp [C34.applyEv, view34, hal, hc, hn]
       refine Good.mono (rescan_good (s := { s with w := { s.w with connected := true, waitHead := (head s.store.stored).getD 0 } })
         { hi with disc := fun hc => by cases hc } ⟨rfl, hal, hthr⟩ rnd) ?_
-      rintro ⟨s4, t4⟩ ⟨hf, hi4, hw, t, rfl⟩
-      refine ⟨hi4, hf.cfg, hf.hdr, ?_⟩
-      rw [hne, hv0]
-      exact hw
+      rintro ⟨s4, t4⟩ ⟨hf, hi4, hw, ⟨t, rfl⟩, hw33⟩
+      refine ⟨hi4, hf.cfg, hf.hdr, ?_, ?_⟩
+      · rw [hne, hv0]
+        exact hw
+      · simp only [C33.specOK]
+        refine isSome_of_W33 ?_ hw33
+        simp [C33.applyEv, view33j, view33, hc, hn]
 
 theorem onWantToPrune_good {s : State} (hi : Inv s) (h : Nat) (h1 : 1 ≤ h) (h2 : h ≤ U64_MAX) :
     Good (onWantToPrune s h) (fun r => Frame s r.2 ∧ Inv r.2 ∧
-      C34.onTok (view34 s) (Tok.grant h r.1) = some (view34 r.2)) := by
+      C34.onTok (view34 s) (Tok.grant h r.1) = some (view34 r.2) ∧ r.2.store = s.store ∧ r.2.w.futs = s.w.futs) := by
   unfold onWantToPrune
   split
-  · exact Good.pure ⟨Frame.refl s, hi, rfl⟩
+  · exact Good.pure ⟨Frame.refl s, hi, rfl, rfl, rfl⟩
   · rename_i hc
     have hno : ¬ mem s.w.ongoing h := by rw [← contains_iff_mem]; exact hc
     obtain ⟨q, hq, hqi, hqm⟩ := removeRelaxed_spec hi.queue (validR_single h1 h2)
@@ -657,7 +869,7 @@ theorem onWantToPrune_good {s : State} (hi : Inv s) (h : Nat) (h1 : 1 ≤ h) (h2
     rintro _ rfl
     refine Good.bind (Good.liftR hp (P := fun a => p = a) rfl) ?_
     rintro _ rfl
-    refine Good.pure ⟨⟨rfl, rfl, rfl, rfl⟩, ?_, ?_⟩
+    refine Good.pure ⟨⟨rfl, rfl, rfl, rfl⟩, ?_, ?_, rfl, rfl⟩
     · refine ⟨hi.stored, hi.sampled, hqi, hi.timedOut, hi.ongoing, hpi, hi.cand, ?_, hi.ongoing_eq, hi.nodup,
         hi.cand_le, hi.futs_le, hi.disc⟩
       intro x
@@ -684,24 +896,26 @@ theorem onWantToPrune_good {s : State} (hi : Inv s) (h : Nat) (h1 : 1 ≤ h) (h2
 theorem grant_ne_storeErr (h : Nat) (ok : Bool) (t : List Tok) : ((Tok.grant h ok :: t) == [Tok.storeErr]) = false := by
   cases t <;> simp
 
-theorem prune_good {s : State} (hi : Inv s) (hal : s.w.dead = false) (hthr : s.cfg.prunerThreshold = 512)
+theorem prune_good {s : State} (hi : Inv s) (hal : s.w.dead = false) (hthr : CfgOK s.cfg)
     (h : Nat) (h1 : 1 ≤ h) (h2 : h ≤ U64_MAX) (rnd : List (List (Nat × Nat))) :
     Good (stepM s (.prune h) rnd) (EvPost s (.prune h)) := by
   simp only [stepM]
   refine Good.bind (onWantToPrune_good hi h h1 h2) ?_
-  rintro ⟨ok, s1⟩ ⟨hf1, hi1, hw1⟩
-  dsimp only at hf1 hi1 hw1 ⊢
+  rintro ⟨ok, s1⟩ ⟨hf1, hi1, hw1, hst1, hfu1⟩
+  dsimp only at hf1 hi1 hw1 hst1 hfu1 ⊢
   split
   · rename_i hc
     refine Good.bind (scheduleAll_good hi1 ⟨hc, hf1.dead.trans hal, by rw [hf1.cfg]; exact hthr⟩ rnd) ?_
-    rintro ⟨s2, t2⟩ ⟨hf2, hi2, hw2⟩
-    refine Good.pure ⟨hi2, hf2.cfg.trans hf1.cfg, hf2.hdr.trans hf1.hdr, ?_⟩
-    simp only [C34.specOK, C34.applyEv, C34.walk, hw1]
-    exact hw2
-  · refine Good.pure ⟨hi1, hf1.cfg, hf1.hdr, ?_⟩
+    rintro ⟨s2, t2⟩ ⟨hf2, hi2, hw2, hw33⟩
+    refine Good.pure ⟨hi2, hf2.cfg.trans hf1.cfg, hf2.hdr.trans hf1.hdr, ?_, ?_⟩
+    · simp only [C34.specOK, C34.applyEv, C34.walk, hw1]
+      exact hw2
+    · simp only [C33.specOK, C33.applyEv, C33.walk, C33.onTok]
+      exact isSome_of_W33 (view33j_congr hst1 hfu1 hf1 none).symm hw33
+  · refine Good.pure ⟨hi1, hf1.cfg, hf1.hdr, ?_, by simp [C33.specOK, C33.applyEv, C33.walk, C33.onTok]⟩
     simp only [C34.specOK, C34.applyEv, C34.walk, hw1, Option.isSome_some]
 
-theorem setHighestPrunable_good {s : State} (hi : Inv s) (hal : s.w.dead = false) (hthr : s.cfg.prunerThreshold = 512)
+theorem setHighestPrunable_good {s : State} (hi : Inv s) (hal : s.w.dead = false) (hthr : CfgOK s.cfg)
     (v : Nat) (rnd : List (List (Nat × Nat))) :
     Good (stepM s (.setHighestPrunable v) rnd) (EvPost s (.setHighestPrunable v)) := by
   simp only [stepM]
@@ -712,11 +926,12 @@ theorem setHighestPrunable_good {s : State} (hi : Inv s) (hal : s.w.dead = false
   · rename_i hc
     refine Good.mono (scheduleAll_good (s := { s with w := { s.w with highestPrunable := some v } }) { hi with }
       ⟨hc, hal, hthr⟩ rnd) ?_
-    rintro ⟨s2, t2⟩ ⟨hf2, hi2, hw2⟩
-    exact ⟨hi2, hf2.cfg, hf2.hdr, by rw [hv]; exact hw2⟩
-  · exact Good.pure ⟨{ hi with }, rfl, rfl, by rw [hv]; rfl⟩
+    rintro ⟨s2, t2⟩ ⟨hf2, hi2, hw2, hw33⟩
+    exact ⟨hi2, hf2.cfg, hf2.hdr, by rw [hv]; exact hw2,
+      by simp only [C33.specOK, C33.applyEv]; exact isSome_of_W33 rfl hw33⟩
+  · exact Good.pure ⟨{ hi with }, rfl, rfl, by rw [hv]; rfl, by simp [C33.specOK, C33.walk]⟩
 
-theorem setNumPrunable_good {s : State} (hi : Inv s) (hal : s.w.dead = false) (hthr : s.cfg.prunerThreshold = 512)
+theorem setNumPrunable_good {s : State} (hi : Inv s) (hal : s.w.dead = false) (hthr : CfgOK s.cfg)
     (v : Nat) (rnd : List (List (Nat × Nat))) :
     Good (stepM s (.setNumPrunable v) rnd) (EvPost s (.setNumPrunable v)) := by
   simp only [stepM]
@@ -727,9 +942,10 @@ theorem setNumPrunable_good {s : State} (hi : Inv s) (hal : s.w.dead = false) (h
   · rename_i hc
     refine Good.mono (scheduleAll_good (s := { s with w := { s.w with numPrunable := v } }) { hi with }
       ⟨hc, hal, hthr⟩ rnd) ?_
-    rintro ⟨s2, t2⟩ ⟨hf2, hi2, hw2⟩
-    exact ⟨hi2, hf2.cfg, hf2.hdr, by rw [hv]; exact hw2⟩
-  · exact Good.pure ⟨{ hi with }, rfl, rfl, by rw [hv]; rfl⟩
+    rintro ⟨s2, t2⟩ ⟨hf2, hi2, hw2, hw33⟩
+    exact ⟨hi2, hf2.cfg, hf2.hdr, by rw [hv]; exact hw2,
+      by simp only [C33.specOK, C33.applyEv]; exact isSome_of_W33 rfl hw33⟩
+  · exact Good.pure ⟨{ hi with }, rfl, rfl, by rw [hv]; rfl, by simp [C33.specOK, C33.walk]⟩
 
 /-! ### a block finishes -/
 
@@ -761,10 +977,26 @@ theorem nodup_filter {futs : List Fut} (p : Fut → Bool) (hnd : (futs.map (·.h
     ((futs.filter p).map (·.height)).Nodup :=
   List.Nodup.sublist (List.Sublist.map _ List.filter_sublist) hnd
 
+/-- a C33 view in which block `h` has just received its last answer -/
+structure V1OK (s : State) (h : Nat) (to : Bool) (v1 : C33.View) : Prop where
+  width : v1.width = (view33 s).width
+  recorded : v1.recorded = (view33 s).recorded
+  connected : v1.connected = s.w.connected
+  justOk : v1.justOk = none
+  blk : ∃ b, C33.findBlk v1 h = some b ∧ b.pending.isEmpty = true ∧ b.anyTimeout = to
+  rest : v1.blocks.filter (fun b => b.height != h) = (s.w.futs.filter (fun f => f.height != h)).map blkOf
+
+theorem onTok_result {v1 : C33.View} {s : State} {h : Nat} {to : Bool} (hv : V1OK s h to v1) :
+    C33.onTok v1 (Tok.result h to) =
+      some { v1 with blocks := v1.blocks.filter (fun b => b.height != h), justOk := if to then none else some h } := by
+  obtain ⟨b, hb, hp, ha⟩ := hv.blk
+  simp [C33.onTok, hb, hp, ha]
+
 theorem onSamplingDone_good {s : State} (hi : Inv s) (hs : Sched s) (h : Nat) (hex : ∃ f ∈ s.w.futs, f.height = h)
     (to : Bool) (rnd : List (List (Nat × Nat))) :
     Good (onSamplingDone s h to rnd) (fun r => Inv r.1 ∧ r.1.cfg = s.cfg ∧ r.1.hdr = s.hdr ∧
-      (C34.walk (view34 s) (Tok.result h to :: r.2)).isSome = true) := by
+      (C34.walk (view34 s) (Tok.result h to :: r.2)).isSome = true ∧
+      ∀ v1, V1OK s h to v1 → (C33.walk v1 (Tok.result h to :: r.2)).isSome = true) := by
   have hong : mem s.w.ongoing h := (hi.ongoing_eq h).2 hex
   have hb := mem_bounds hi.ongoing hong
   have hv := validR_single hb.1 hb.2
@@ -810,8 +1042,16 @@ theorem onSamplingDone_good {s : State} (hi : Inv s) (hs : Sched s) (h : Nat) (h
         have hxh : x ≠ h := fun hxh => b (Or.inr (by omega))
         exact ⟨a, fun hc => b (Or.inl hc), fun hc => c ⟨hc, hxh⟩, d⟩
     refine Good.mono (scheduleAll_good himid ⟨hs.conn, hs.alive, hs.thr⟩ rnd) ?_
-    rintro ⟨s2, t2⟩ ⟨hf2, hi2, hw2⟩
-    refine ⟨hi2, hf2.cfg, hf2.hdr, ?_⟩
+    rintro ⟨s2, t2⟩ ⟨hf2, hi2, hw2, hw33⟩
+    refine ⟨hi2, hf2.cfg, hf2.hdr, ?_, ?_⟩
+    rotate_left
+    · intro v1 hv1
+      simp only [C33.walk]
+      rw [onTok_result hv1]
+      simp only [if_true]
+      refine isSome_of_W33 ?_ hw33
+      simp only [view33j, view33, C33.View.mk.injEq]
+      exact ⟨hv1.width, hv1.recorded, hv1.rest, trivial, hv1.connected⟩
     have hstep : C34.onTok (view34 s) (Tok.result h true) =
         some (view34 { s with w := { s.w with futs := s.w.futs.filter (fun f => f.height != h), timedOut := t, ongoing := o } }) := by
       simp only [C34.onTok, if_true, view34, Option.some.injEq, C34.View.mk.injEq, true_and, hdel, hlen, and_true]
@@ -831,10 +1071,14 @@ theorem onSamplingDone_good {s : State} (hi : Inv s) (hs : Sched s) (h : Nat) (h
     simp only [Bool.false_eq_true, if_false]
     split
     · -- the header is gone: `mark_as_sampled` fails, the worker stops
-      refine Good.pure ⟨?_, rfl, rfl, ?_⟩
+      refine Good.pure ⟨?_, rfl, rfl, ?_, ?_⟩
       · refine ⟨hi.stored, hi.sampled, inv_nil, inv_nil, inv_nil, inv_nil, inv_nil, ?_, ?_, ?_, ?_, ?_, ?_⟩ <;>
           simp [die, Worker.deadState, Worker.init, mem_nil]
       · simp [C34.walk, C34.onTok]
+      · intro v1 hv1
+        simp only [C33.walk]
+        rw [onTok_result hv1]
+        simp [C33.onTok]
     · rename_i hst
       have hstored : contains s.store.stored h = true := by simpa using hst
       obtain ⟨sm, hsm, hsmi, hsmm⟩ := insertRelaxed_spec hi.sampled hv
@@ -863,8 +1107,16 @@ theorem onSamplingDone_good {s : State} (hi : Inv s) (hs : Sched s) (h : Nat) (h
         · intro x hx
           exact hi.cand_le x ((hcm' x).1 hx).1
       refine Good.bind (scheduleAll_good himid ⟨hs.conn, hs.alive, hs.thr⟩ rnd) ?_
-      rintro ⟨s2, t2⟩ ⟨hf2, hi2, hw2⟩
-      refine Good.pure ⟨hi2, hf2.cfg, hf2.hdr, ?_⟩
+      rintro ⟨s2, t2⟩ ⟨hf2, hi2, hw2, hw33⟩
+      refine Good.pure ⟨hi2, hf2.cfg, hf2.hdr, ?_, ?_⟩
+      rotate_left
+      · intro v1 hv1
+        simp only [C33.walk]
+        rw [onTok_result hv1]
+        simp only [C33.onTok, Bool.false_eq_true, if_false, beq_self_eq_true, if_true]
+        refine isSome_of_W33 ?_ hw33
+        simp only [view33j, view33, C33.View.mk.injEq]
+        exact ⟨hv1.width, hv1.recorded, hv1.rest, trivial, hv1.connected⟩
       have hstep : (C34.onTok (view34 s) (Tok.result h false)).bind (fun v => C34.onTok v (Tok.mark h)) =
           some (view34 { s with store := { s.store with sampled := sm }, w := { s.w with futs := s.w.futs.filter (fun f => f.height != h), ongoing := o, cand := c } }) := by
         simp only [C34.onTok, Bool.false_eq_true, if_false, Option.bind, view34, hstored, if_true, Option.some.injEq,
@@ -902,7 +1154,41 @@ theorem map_height_congr {futs : List Fut} {h : Nat} {f' : Fut} (hf' : f'.height
   · rename_i hg; rw [hf']; exact (by simpa using hg : g.height = h).symm
   · rfl
 
-theorem answer_good {s : State} (hi : Inv s) (hal : s.w.dead = false) (hthr : s.cfg.prunerThreshold = 512)
+/-- updating the block of one height: where that block is found afterwards -/
+theorem find_map_upd (g : C33.Blk → C33.Blk) (hg : ∀ b, (g b).height = b.height) :
+    ∀ {futs : List Fut} {f : Fut}, f ∈ futs → (futs.map (·.height)).Nodup →
+    ((futs.map blkOf).map g).find? (fun b => b.height == f.height) = some (g (blkOf f))
+  | k :: rest, f, hf, hnd => by
+    simp only [List.map_cons, List.nodup_cons] at hnd
+    rcases List.mem_cons.1 hf with rfl | hf
+    · simp [List.find?_cons, hg, blkOf]
+    · have hne : ((g (blkOf k)).height == f.height) = false := by
+        rw [hg]
+        simp only [blkOf, beq_eq_false_iff_ne, ne_eq]
+        intro hkf
+        exact hnd.1 (List.mem_map.2 ⟨f, hf, hkf.symm⟩)
+      simp only [List.map_cons, List.find?_cons, hne]
+      exact find_map_upd g hg hf hnd.2
+
+/-- … and the other blocks are untouched -/
+theorem filter_map_upd (h : Nat) (g : C33.Blk → C33.Blk) (hg : ∀ b, (g b).height = b.height)
+    (hid : ∀ b, b.height ≠ h → g b = b) : ∀ (futs : List Fut),
+    ((futs.map blkOf).map g).filter (fun b => b.height != h) = (futs.filter (fun f => f.height != h)).map blkOf
+  | [] => rfl
+  | k :: rest => by
+    simp only [List.map_cons, List.filter_cons, hg]
+    have ih := filter_map_upd h g hg hid rest
+    by_cases hk : k.height = h
+    · have : ((blkOf k).height != h) = false := by simp [blkOf, hk]
+      have h2 : (k.height != h) = false := by simp [hk]
+      simp only [this, h2, Bool.false_eq_true, if_false]
+      exact ih
+    · have : ((blkOf k).height != h) = true := by simp [blkOf, hk]
+      have h2 : (k.height != h) = true := by simp [hk]
+      simp only [this, h2, if_true, List.map_cons, hid (blkOf k) (by simpa [blkOf] using hk)]
+      rw [ih]
+
+theorem answer_good {s : State} (hi : Inv s) (hal : s.w.dead = false) (hthr : CfgOK s.cfg)
     (h : Nat) (p : Share) (to : Bool) (rnd : List (List (Nat × Nat))) :
     Good (stepM s (.answer h p to) rnd) (EvPost s (.answer h p to)) := by
   simp only [stepM]
@@ -910,14 +1196,16 @@ theorem answer_good {s : State} (hi : Inv s) (hal : s.w.dead = false) (hthr : s.
   have hspec : ∀ t, C34.specOK (view34 s) (.answer h p to) t = (C34.walk (view34 s) t).isSome := by
     intro t; simp [C34.specOK, C34.applyEv]
   cases hfind : s.w.futs.find? (fun f => f.height == h) with
-  | none => exact Good.pure ⟨hi, rfl, rfl, by rw [hspec]; rfl⟩
+  | none => exact Good.pure ⟨hi, rfl, rfl, by rw [hspec]; rfl, by simp [C33.specOK, C33.walk]⟩
   | some f =>
     have hfm : f ∈ s.w.futs := List.mem_of_find?_eq_some hfind
     have hfh : f.height = h := by simpa using List.find?_some hfind
     dsimp only
     split
-    · exact Good.pure ⟨hi, rfl, rfl, by rw [hspec]; rfl⟩
-    · split
+    · exact Good.pure ⟨hi, rfl, rfl, by rw [hspec]; rfl, by simp [C33.specOK, C33.walk]⟩
+    · rename_i hcont
+      have hcont' : f.pending.contains p = true := by simpa using hcont
+      split
       · -- last pending share of the block
         have hconn : s.w.connected = true := by
           -- a disconnected worker has no futures... not needed: scheduling hypotheses come from `Sched`
@@ -925,13 +1213,37 @@ theorem answer_good {s : State} (hi : Inv s) (hal : s.w.dead = false) (hthr : s.
           | true => rfl
           | false => rw [hi.disc hc] at hfm; simp at hfm
         refine Good.bind (onSamplingDone_good hi ⟨hconn, hal, hthr⟩ h ⟨f, hfm, hfh⟩ _ rnd) ?_
-        rintro ⟨s1, t1⟩ ⟨hi1, hc1, hh1, hw1⟩
-        refine Good.pure ⟨hi1, hc1, hh1, ?_⟩
-        rw [hspec]
-        simp only [C34.walk, C34.onTok] at hw1 ⊢
-        exact hw1
+        rintro ⟨s1, t1⟩ ⟨hi1, hc1, hh1, hw1, hw33⟩
+        rename_i hemp
+        refine Good.pure ⟨hi1, hc1, hh1, ?_, ?_⟩
+        · rw [hspec]
+          simp only [C34.walk, C34.onTok] at hw1 ⊢
+          exact hw1
+        · -- C33: the block record after this answer has nothing pending
+          let g : C33.Blk → C33.Blk := fun b =>
+            if b.height == h && b.pending.contains p then
+              { b with pending := b.pending.erase p, anyTimeout := b.anyTimeout || to } else b
+          have hg : ∀ b, (g b).height = b.height := by
+            intro b; simp only [g]; split <;> rfl
+          have hid : ∀ b, b.height ≠ h → g b = b := by
+            intro b hb
+            have : (b.height == h) = false := by simpa using hb
+            simp only [g, this, Bool.false_and, Bool.false_eq_true, if_false]
+          have hv1 : V1OK s h (f.timedOut || to) (C33.applyEv (view33 s) (.answer h p to) false) := by
+            refine ⟨rfl, rfl, rfl, rfl, ?_, ?_⟩
+            · refine ⟨g (blkOf f), ?_, ?_, ?_⟩
+              · have := find_map_upd g hg hfm hi.nodup
+                rw [hfh] at this
+                exact this
+              · simp only [g, blkOf, hfh, beq_self_eq_true, hcont', Bool.and_self, if_true]
+                exact hemp
+              · simp only [g, blkOf, hfh, beq_self_eq_true, hcont', Bool.and_self, if_true]
+            · exact filter_map_upd h g hg hid s.w.futs
+          have := hw33 _ hv1
+          simp only [C33.specOK, C33.walk, C33.onTok] at this ⊢
+          exact this
       · -- more shares pending
-        refine Good.pure ⟨?_, rfl, rfl, ?_⟩
+        refine Good.pure ⟨?_, rfl, rfl, ?_, ?_⟩
         · refine ⟨hi.stored, hi.sampled, hi.queue, hi.timedOut, hi.ongoing, hi.wbp, hi.cand, hi.queue_eq, ?_, ?_,
             hi.cand_le, ?_, fun hc => by simp [hi.disc hc]⟩
           · intro x
@@ -959,10 +1271,11 @@ theorem answer_good {s : State} (hi : Inv s) (hal : s.w.dead = false) (hthr : s.
             exact hi.futs_le
         · rw [hspec]
           simp [C34.walk, C34.onTok]
+        · simp [C33.specOK, C33.walk, C33.onTok]
 
 /-! ### the step function -/
 
-theorem stepM_good {s : State} (hi : Inv s) (hal : s.w.dead = false) (hthr : s.cfg.prunerThreshold = 512)
+theorem stepM_good {s : State} (hi : Inv s) (hal : s.w.dead = false) (hthr : CfgOK s.cfg)
     (ev : Ev) (hwf : EvWF ev) (hp0 : ev ≠ .prune 0) (rnd : List (List (Nat × Nat))) :
     Good (stepM s ev rnd) (EvPost s ev) := by
   cases ev with
@@ -994,34 +1307,41 @@ theorem inv_die {s : State} (hi : Inv s) : Inv (die s) := by
 /-- what every reachable state satisfies -/
 structure StateOK (s : State) : Prop where
   inv : Inv s
-  thr : s.cfg.prunerThreshold = 512
+  thr : CfgOK s.cfg
 
 theorem stepDead_ok {s : State} (hs : StateOK s) (ev : Ev) (hwf : EvWF ev) :
-    StateOK (stepDead s ev).1 ∧ C34.specOK (view34 s) ev (stepDead s ev).2 = true := by
+    StateOK (stepDead s ev).1 ∧ C34.specOK (view34 s) ev (stepDead s ev).2 = true ∧
+    C33.specOK (view33 s) ev (stepDead s ev).2 = true := by
   cases ev with
   | insert lo hi' =>
     simp only [stepDead]
     cases hsi : storeInsert s.store lo hi' with
-    | none => exact ⟨hs, by simp [C34.specOK, C34.applyEv, C34.walk, C34.onTok]⟩
+    | none => exact ⟨hs, by simp [C34.specOK, C34.applyEv, C34.walk, C34.onTok],
+        by simp [C33.specOK, C33.applyEv, C33.walk, C33.onTok]⟩
     | some st =>
       obtain ⟨h1, h2, _⟩ := storeInsert_spec hs.inv.stored hs.inv.sampled hwf hsi
-      exact ⟨⟨{ hs.inv with stored := h1, sampled := h2 }, hs.thr⟩, by simp [C34.specOK, C34.walk]⟩
+      exact ⟨⟨{ hs.inv with stored := h1, sampled := h2 }, hs.thr⟩, by simp [C34.specOK, C34.walk],
+        by simp [C33.specOK, C33.walk]⟩
   | remove h =>
     simp only [stepDead]
     cases hsr : storeRemove s.store h with
-    | none => exact ⟨hs, by simp [C34.specOK, C34.applyEv, C34.walk, C34.onTok]⟩
+    | none => exact ⟨hs, by simp [C34.specOK, C34.applyEv, C34.walk, C34.onTok],
+        by simp [C33.specOK, C33.applyEv, C33.walk, C33.onTok]⟩
     | some st =>
       obtain ⟨h1, h2, _⟩ := storeRemove_spec hs.inv.stored hs.inv.sampled hsr
-      exact ⟨⟨{ hs.inv with stored := h1, sampled := h2 }, hs.thr⟩, by simp [C34.specOK, C34.walk]⟩
-  | prune h => exact ⟨hs, by simp [stepDead, C34.specOK, C34.applyEv, C34.walk, C34.onTok]⟩
-  | peers n => exact ⟨hs, by simp [stepDead, C34.specOK, C34.walk]⟩
-  | setHighestPrunable v => exact ⟨hs, by simp [stepDead, C34.specOK, C34.walk]⟩
-  | setNumPrunable v => exact ⟨hs, by simp [stepDead, C34.specOK, C34.walk]⟩
-  | answer h p to => exact ⟨hs, by simp [stepDead, C34.specOK, C34.walk]⟩
+      exact ⟨⟨{ hs.inv with stored := h1, sampled := h2 }, hs.thr⟩, by simp [C34.specOK, C34.walk],
+        by simp [C33.specOK, C33.walk]⟩
+  | prune h => exact ⟨hs, by simp [stepDead, C34.specOK, C34.applyEv, C34.walk, C34.onTok],
+      by simp [stepDead, C33.specOK, C33.applyEv, C33.walk, C33.onTok]⟩
+  | peers n => exact ⟨hs, by simp [stepDead, C34.specOK, C34.walk], by simp [stepDead, C33.specOK, C33.walk]⟩
+  | setHighestPrunable v => exact ⟨hs, by simp [stepDead, C34.specOK, C34.walk], by simp [stepDead, C33.specOK, C33.walk]⟩
+  | setNumPrunable v => exact ⟨hs, by simp [stepDead, C34.specOK, C34.walk], by simp [stepDead, C33.specOK, C33.walk]⟩
+  | answer h p to => exact ⟨hs, by simp [stepDead, C34.specOK, C34.walk], by simp [stepDead, C33.specOK, C33.walk]⟩
 
-/-- **one stimulus**: the invariant is kept and the monitor accepts everything the worker does -/
+/-- **one stimulus**: the invariant is kept and both monitors accept everything the worker does -/
 theorem step_ok {s : State} (hs : StateOK s) (ev : Ev) (hwf : EvWF ev) (rnd : List (List (Nat × Nat))) :
-    StateOK (step s ev rnd).1 ∧ C34.specOK (view34 s) ev (step s ev rnd).2 = true := by
+    StateOK (step s ev rnd).1 ∧ C34.specOK (view34 s) ev (step s ev rnd).2 = true ∧
+    C33.specOK (view33 s) ev (step s ev rnd).2 = true := by
   unfold step
   cases hd : s.w.dead with
   | true => simp only [if_true]; exact stepDead_ok hs ev hwf
@@ -1032,25 +1352,31 @@ theorem step_ok {s : State} (hs : StateOK s) (ev : Ev) (hwf : EvWF ev) (rnd : Li
       have hp0 : ev ≠ .prune 0 := by
         intro h0; subst h0; rw [prune_zero_panics hs.inv] at hm; cases hm
       have := (stepM_good hs.inv hd hs.thr ev hwf hp0 rnd).of_ok hm
-      exact ⟨⟨this.1, by rw [this.2.1]; exact hs.thr⟩, this.2.2.2⟩
+      exact ⟨⟨this.1, by rw [this.2.1]; exact hs.thr⟩, this.2.2.2.1, this.2.2.2.2⟩
     | error e =>
-      refine ⟨⟨inv_die hs.inv, hs.thr⟩, ?_⟩
-      cases ev <;> simp [C34.specOK, C34.applyEv, C34.walk, C34.onTok]
+      refine ⟨⟨inv_die hs.inv, hs.thr⟩, ?_, ?_⟩
+      · cases ev <;> simp [C34.specOK, C34.applyEv, C34.walk, C34.onTok]
+      · cases ev <;> simp [C33.specOK, C33.applyEv, C33.walk, C33.onTok]
 
-/-- the monitor's verdicts along a whole history -/
+/-- the C34 monitor's verdicts along a whole history -/
 def accepts34 (s : State) : List (Ev × List (List (Nat × Nat))) → Bool
   | [] => true
   | (ev, rnd) :: rest => C34.specOK (view34 s) ev (step s ev rnd).2 && accepts34 (step s ev rnd).1 rest
 
+/-- the C33 monitor's verdicts along a whole history -/
+def accepts33 (s : State) : List (Ev × List (List (Nat × Nat))) → Bool
+  | [] => true
+  | (ev, rnd) :: rest => C33.specOK (view33 s) ev (step s ev rnd).2 && accepts33 (step s ev rnd).1 rest
+
 theorem run_ok : ∀ (evs : List (Ev × List (List (Nat × Nat)))) (s : State), StateOK s → (∀ e ∈ evs, EvWF e.1) →
-    accepts34 s evs = true ∧ StateOK (run s evs).1
-  | [], s, hs, _ => ⟨rfl, hs⟩
+    accepts34 s evs = true ∧ accepts33 s evs = true ∧ StateOK (run s evs).1
+  | [], s, hs, _ => ⟨rfl, rfl, hs⟩
   | (ev, rnd) :: rest, s, hs, hwf => by
     have h1 := step_ok hs ev (hwf (ev, rnd) (by simp)) rnd
     have h2 := run_ok rest (step s ev rnd).1 h1.1 (fun e he => hwf e (by simp [he]))
-    refine ⟨by simp [accepts34, h1.2, h2.1], ?_⟩
+    refine ⟨by simp [accepts34, h1.2.1, h2.1], by simp [accepts33, h1.2.2, h2.2.1], ?_⟩
     simp only [run]
-    exact h2.2
+    exact h2.2.2
 
 attribute [local simp] ok_bind err_bind map_ok map_err pure_eq throw_eq
 
@@ -1110,7 +1436,7 @@ theorem ongoing_len {s : State} (hi : Inv s) : len s.w.ongoing = .ok s.w.futs.le
   rw [hperm.length_eq, List.length_map]
 
 /-- no failed `expect`, no exhausted loop bound: a step either succeeds or `random_indexes` diverges -/
-theorem stepM_no_panic {s : State} (hi : Inv s) (hal : s.w.dead = false) (hthr : s.cfg.prunerThreshold = 512)
+theorem stepM_no_panic {s : State} (hi : Inv s) (hal : s.w.dead = false) (hthr : CfgOK s.cfg)
     (ev : Ev) (hwf : EvWF ev) (hp0 : ev ≠ .prune 0) (rnd : List (List (Nat × Nat))) (e : Fail)
     (he : stepM s ev rnd = .error e) : e = .diverge := by
   have := stepM_good hi hal hthr ev hwf hp0 rnd
